@@ -193,7 +193,7 @@ def run(chk):
         for x in st:
             if x.startswith("q."):
                 last = park[kind].get(x) if x != "q.search" else None
-            elif last and x in ("flush.vis", "rot.tree", "rot.meta", "rot.remove") and (x != "rot.tree" or kind in ("count_by", "sum_by")):
+            elif last and x in ("flush.vis", "rot.tree", "rot.segmeta", "rot.meta", "rot.remove") and (x != "rot.tree" or kind in ("count_by", "sum_by")):
                 out.add((last, x))
         return tuple(sorted(out))
     rnd = random.Random(chk.seed)
